@@ -34,17 +34,26 @@ def write_runs(ctx, runs):
 
 
 def dropped_empty(run):
-    """Accepted zero-length messages of which no packet ever reached the stream."""
-    acc = {(l["x"], l["id"]) for l in run if l.get("act") == "Send" and l.get("ok") and l.get("len") == 0}
-    seen = {(l["x"], l["id"]) for l in run if l.get("act") == "Pkt" and l.get("kind") == "msg"}
-    return sorted(acc - seen)
+    """Accepted zero-length messages that were skipped: no packet of them ever reached the stream although
+    the side flushed everything (clean run) or a later message of the same channel did."""
+    kind = json.loads(run[0]["scenario"]).get("kind") if run and run[0].get("scenario") else "clean"
+    acc = {(l["x"], l["id"]): l["ch"] for l in run if l.get("act") == "Send" and l.get("ok") and l.get("len") == 0}
+    pk = [(l["x"], l["ch"], l["id"]) for l in run if l.get("act") == "Pkt" and l.get("kind") == "msg"]
+    seen = {(x, i) for x, _c, i in pk}
+    out = []
+    for (x, i), ch in acc.items():
+        if (x, i) in seen:
+            continue
+        if kind == "clean" or any(px == x and pc == ch and pi > i for px, pc, pi in pk):
+            out.append((x, i))
+    return sorted(out)
 
 
 def classify(run, idx):
     """Key of the failing class from the first event TLC could not take."""
     line = run[idx] if idx < len(run) else {"act": "end-of-trace"}
     act = line.get("act")
-    if dropped_empty(run) and act in ("Pkt", "Close", "Recv", "EOF", "Final"):
+    if dropped_empty(run) and (act in ("Pkt", "Close", "EOF", "Final") or (act == "Recv" and line.get("id") != -1)):
         return "C43:Send:empty-message-dropped"
     if act == "Recv":
         if line.get("id") == -1:
@@ -57,6 +66,8 @@ def classify(run, idx):
         return "C43:%s:lost-or-unflushed" % act
     if act == "Final":
         return "C43:Final:failure-not-reported-or-message-lost"
+    if act == "Idle":
+        return "C43:Idle:malformed-packet-accepted"
     if act == "Err":
         return "C43:Err:unexpected"
     if act == "Ret":
@@ -196,7 +207,7 @@ def run(ctx):
             suspect = [r for r in runs if dropped_empty(r)]
             for key in ("runs", "lines", "messages_sent", "malformed_runs", "backpressure_runs"):
                 ctx.add({"runs": "runs_recorded", "lines": "events_recorded"}.get(key, key), int(s.get(key, 0)))
-            log("k=%d: %d runs recorded (%d events, %d messages accepted), %d of them lose an accepted empty message before the stream" % (
+            log("k=%d: %d runs recorded (%d events, %d messages accepted), %d of them with an accepted empty message that never reached the stream" % (
                 k, s.get("runs", 0), s.get("lines", 0), s.get("messages_sent", 0), len(suspect)))
             if main:
                 ctx.sample({"scenario": json.loads(main[0][0]["scenario"]), "first_events": main[0][1:6]})
